@@ -134,9 +134,12 @@ def x_calendar(ctx) -> None:
     nshift = 4 if ctx.tier == "thorough" else 1
     shifts = {y: sorted(set([ctx.rng.choice([-25, -13, -12, -1, 1, 11, 12, 14, 24, 37])] +
                             [ctx.rng.randint(-60, 60) for _ in range(nshift - 1)])) for y in YEARS}
-    year_rows, cal = P.sql_calendar_rows(YEARS, shifts)
+    # units of vtl_dateadd: thorough all six; quick one of D/W and one of M/Q/S/A per year
+    units = {y: (P.INDS if ctx.tier == "thorough" else ctx.rng.choice("DW") + ctx.rng.choice("MQSA")) for y in YEARS}
+    year_rows, cal = P.sql_calendar_rows(YEARS, shifts, units)
     keys = [(y,) for y in YEARS]
-    fp = P.coq_fp("tie_calendar_fp", keys, {(y,): " " + P.zlist(shifts[y]) for y in YEARS}, "c08cal")
+    cargs = {(y,): " " + P.zlist(shifts[y]) + " " + common.coq_list([P.COQ_IND[u] for u in units[y]]) for y in YEARS}
+    fp = P.coq_fp("tie_calendar_fp", keys, cargs, "c08cal")
     bad_year, bad = [], []
     n_eval = 0
     for y in YEARS:
@@ -154,7 +157,7 @@ def x_calendar(ctx) -> None:
     detail = ""
     if bad:
         ks = [(y,) for y in bad[:2]]
-        cr = P.coq_rows("tie_calendar_rows", ks, {k: " " + P.zlist(shifts[k[0]]) for k in ks}, "c08loc")
+        cr = P.coq_rows("tie_calendar_rows", ks, {k: cargs[k] for k in ks}, "c08loc")
         for k in ks:
             d = P.first_diff(cr[k], cal[k[0]])
             detail += f"year {k[0]} day {d[0] + 1 if d else '?'} column {d[1] if d else '?'}: model {d[2] if d else '?'} engine {d[3] if d else '?'}; "
@@ -212,7 +215,7 @@ def mk_rows(series, rng, measure=True):
 
 def build_cases(ctx) -> List[Case]:
     rng = ctx.rng
-    per = 3 if ctx.tier == "quick" else 12
+    per = 2 if ctx.tier == "quick" else 12
     cases: List[Case] = []
     S = D.tp_structure()
     for ind in P.INDS:
@@ -226,7 +229,7 @@ def build_cases(ctx) -> List[Case]:
             cases.append(Case("timeshift_inverse", f"DS_r <- timeshift(timeshift(DS_1, {n}), {-n});", S, rows,
                               f"(k_shift_inv {common.coq_z(n)} {D.coq_ps(ps)})", check_identity(series, rows, True), ind))
     for ind in P.INDS:
-        for _ in range(max(2, per // 2)):
+        for _ in range(1 if ctx.tier == "quick" else per // 2):
             series = D.gen_series(rng, ind, rng.randint(1, 2), rng.randint(3, 6))
             rows = mk_rows(series, rng)
             ps = [p for _, p in series]
@@ -243,7 +246,7 @@ def build_cases(ctx) -> List[Case]:
                               check_period_indicator(series), ind))
             cases.append(Case("extractors", "DS_r <- DS_1[calc Me_2 := getyear(Id_2), Me_3 := getmonth(Id_2), Me_4 := dayofmonth(Id_2), "
                                             "Me_5 := dayofyear(Id_2)];", S, rows, f"(k_scalar {D.coq_ps(ps)})", check_columns(series, 4, 3), ind))
-            targets = [t for t in P.INDS if P.RANK[t] >= P.RANK[ind]]
+            targets = [t for t in P.INDS if P.RANK[t] >= P.RANK[ind] and t != "D"] or ["A"]
             t = rng.choice(targets)
             cases.append(Case("time_agg", f'DS_r <- DS_1[calc Me_2 := time_agg("{t}", Id_2)];', S, rows, f"(k_agg {P.COQ_IND[t]} {D.coq_ps(ps)})",
                               check_agg(series, t), ind))
@@ -279,9 +282,10 @@ def build_cases(ctx) -> List[Case]:
                           f"(k_dateadd {common.coq_z(k)} {P.COQ_IND[u]} {zs})", check_dates(series, 1, 5), "date"))
         cases.append(Case("datediff_date", "DS_r <- DS_1[calc Me_4 := datediff(Me_2, Me_3)];", Sd, rows, f"(k_date_diff {zs} {ws})",
                           check_columns(series, 1, 5), "date"))
-        t = rng.choice(list(P.INDS))
-        cases.append(Case("time_agg_date", f'DS_r <- DS_1[calc Me_4 := time_agg("{t}", Me_2)];', Sd, rows,
-                          f"(k_date_agg {P.COQ_IND[t]} {zs})", check_agg_col(series, t, 5), "date"))
+        t = rng.choice("ASQMW")
+        conf = rng.choice(["first", "last"])
+        cases.append(Case("time_agg_date", f'DS_r <- DS_1[calc Me_4 := time_agg("{t}", _, Me_2, {conf})];', Sd, rows,
+                          f"(k_date_agg {P.COQ_IND[t]} {'true' if conf == 'last' else 'false'} {zs})", check_dates(series, 1, 5), "date"))
     return cases
 
 
@@ -450,7 +454,7 @@ def k_datasets(ctx) -> None:
         c.res = D.run(c.script, c.structs, c.rows, **c.kw)
         hist[c.op] = hist.get(c.op, 0) + 1
     ctx.log(f"K: {len(cases)} generated datasets run through vtlengine.run in {time.time() - t0:.1f}s ({len(corpus)} corpus cases)")
-    exps = common.coq_eval(P.HEADER, [c.expr for c in cases], "c08k", shard=max(8, len(cases) // common.NCPU + 1))
+    exps = common.coq_eval(P.HEADER, [c.expr for c in cases], "c08k", shard=max(8, len(cases) // common.NCPU + 1), timeout=1500)
     n_bad = 0
     fills = []
     for c, e in zip(cases, exps):
